@@ -39,3 +39,25 @@ def map_units(func_mod, func_name, paths, extra=(), workers=16):
         for path, res in ex.map(_work, [(func_mod, func_name, p, tuple(extra)) for p in paths], chunksize=1):
             out[path] = res
     return out
+
+
+_DB_CACHE = {}
+
+
+def _work_item(args):
+    func_mod, func_name, paths, item, extra = args
+    import importlib
+    key = tuple(paths)
+    if key not in _DB_CACHE:
+        _DB_CACHE.clear(); _DB_CACHE[key] = core.DB(list(paths))
+    mod = importlib.import_module(func_mod)
+    return item, getattr(mod, func_name)(_DB_CACHE[key], item, *extra)
+
+
+def map_items(func_mod, func_name, paths, items, extra=(), workers=16):
+    """run  func(db, item, *extra)  for every item in a process pool; every worker loads the database once"""
+    out = {}
+    with cf.ProcessPoolExecutor(max_workers=workers) as ex:
+        for item, res in ex.map(_work_item, [(func_mod, func_name, tuple(paths), it, tuple(extra)) for it in items], chunksize=1):
+            out[item] = res
+    return out
